@@ -25,7 +25,8 @@ type tableRow struct {
 	Quorum bool   `json:"quorum"`
 	Canon  bool   `json:"canon"`
 	Need   int    `json:"need"`
-	Cond   string `json:"cond"` // added by the check: how the rule is reached
+	Cond   string `json:"cond"`  // added by the check: how the rule is reached
+	Paths  string `json:"paths"` // added by the check: entry points to drive, e.g. "hdr,sub,add"
 }
 
 func seq1(n int) []int {
@@ -39,7 +40,7 @@ func seq1(n int) []int {
 // hdrTable: rows grouped by (mode, rule, cond, n); one fresh ledger per group and path. Accepted rows extend the chain,
 // the next row is built on the new tip. Every row is also executed once more after the table to check that verdicts do
 // not depend on the position in the run (thorough tier only does that implicitly through the seeds).
-func hdrTable(paths string) {
+func hdrTable(defPaths string) {
 	rng := vio.NewRNG(vio.Seed())
 	var rows []tableRow
 	for _, ln := range vio.ReadLines() {
@@ -50,13 +51,16 @@ func hdrTable(paths string) {
 		rows = append(rows, r)
 	}
 	type gk struct {
-		mode, rule, cond string
-		n                int
+		mode, rule, cond, paths string
+		n                       int
 	}
 	groups := map[gk][]tableRow{}
 	var order []gk
 	for _, r := range rows {
-		k := gk{r.Mode, r.Rule, r.Cond, r.N}
+		if r.Paths == "" {
+			r.Paths = defPaths
+		}
+		k := gk{r.Mode, r.Rule, r.Cond, r.Paths, r.N}
 		if _, ok := groups[k]; !ok {
 			order = append(order, k)
 		}
@@ -64,8 +68,14 @@ func hdrTable(paths string) {
 	}
 	total := 0
 	for _, k := range order {
-		for _, op := range strings.Split(paths, ",") {
-			w := openWorld(k.mode, k.rule, k.cond, k.n, rng)
+		for _, op := range strings.Split(k.paths, ",") {
+			w, err := tryOpenWorld(k.mode, k.rule, k.cond, k.n, rng)
+			if err != nil {
+				// a ledger that cannot be created (e.g. more bookkeepers than a multi-signature address allows once
+				// the address derivation reports its error) is reported, the check decides whether that is acceptable
+				vio.Emit(map[string]interface{}{"skipped": true, "mode": k.mode, "rule": k.rule, "n": k.n, "op": op, "rows": len(groups[k]), "err": err.Error()})
+				continue
+			}
 			vio.Emit(w.resetEvent(seq1(k.n)))
 			rs := groups[k]
 			for _, i := range rng.Perm(len(rs)) {
@@ -264,6 +274,9 @@ func hdrRandom(traces, steps int) {
 			ev := w.offer(op, a, fmt.Sprintf("random-%d-%d", t, s))
 			vio.Emit(ev)
 			executed++
+			if mode == "vbft" && !ev.Acc && op != "hdr" && len(a.Cfg) > 0 {
+				vio.Emit(w.syncEvent())
+			}
 			if ev.Acc && (mode == "solo" || len(a.Cfg) > 0) {
 				cur[path] = a.Cfg
 			}
